@@ -126,6 +126,11 @@ class CallGen:
         elem = self.m.ELEM[cm]
         v = self.var([n for n, _ in env])
         inner = [(n, c) for n, c in env if n != v] + [(v, elem)]
+        if cm.endswith("_my") and r.random() < 0.3:
+            # the custom Iterable subclass's own methods, reached through the parameterised alias MyIter[X]: one is named like an
+            # operator a registered collection class also has, others take no instance
+            self.own_calls = getattr(self, "own_calls", 0) + 1
+            return self.method_call(cu, cx, "MyIter", r.choice(["Take", "Take", "own", "scale_for", "reserve", "clamp"]), env, depth)
         if k < 0.85:
             # element of the collection: First(), [0], [-1], [computed index] - then a typed method call on it
             # (a registered stream-collection class declares no subscripting, so only Iterable collections are indexed)
@@ -137,7 +142,7 @@ class CallGen:
                 idx = astx.parse_expr(how[1:-1])
                 fu = ast.Subscript(value=cu, slice=idx, ctx=ast.Load())
                 fx = ast.Subscript(value=cx, slice=astx.clone(idx), ctx=ast.Load())
-            meths = ["m0", "m1", "m2", "m3"] + (["dm", "dm"] if elem == "Jet" else [])
+            meths = ["m0", "m1", "m2", "m3"] + (["dm", "dm", "scale_for", "reserve", "clamp"] if elem == "Jet" else [])
             return self.method_call(fu, fx, elem, r.choice(meths), env, depth)
         # Where(...).Count()
         (bu, bx) = self.scalar(inner, depth + 1)
